@@ -224,8 +224,8 @@ def plan(tier, seed):
         mcs_all = [0, 1, 3, 4, 5, 6, 7, 8, 9, 10, 11, 12, 13, 14]
         if thorough:
             mcs = mcs_all
-        elif cps.index(cp) % 3 == seed % 3:
-            mcs = [1, 0, 3, mcs_all[(seed + cp) % len(mcs_all)]]      # a standard matrix, one derived from the primaries, Reserved, one seeded
+        elif cps.index(cp) % 6 == seed % 6 or cp == 10:
+            mcs = [1, 0, 3]      # a standard matrix, one derived from the primaries, Reserved (quick: 3 of the 13 primaries, incl. ST 428)
         else:
             mcs = []
         stubs = ("    #[kani::proof]\n    #[kani::unwind(6)]\n    #[kani::stub(yuvxyb_math::pow_exp::powf, stub_powf)]\n    #[kani::stub(yuvxyb_math::pow_exp::expf, stub_expf)]\n"
@@ -238,13 +238,15 @@ def plan(tier, seed):
                 multi += stubs + "    fn %s() { multi_p%d::<%s>(%d, %d) }\n" % (nm, cp, flag, cp, m)
                 hs.append(dict(name=nm, family="c14", obligation="YUV<->%s: symmetry, error names an offender, standard combinations succeed, config/dimensions as requested [primaries index %d, matrix index %d]" % ("linear RGB" if fam == "linear" else "XYB", cp, m),
                                timeout=1800, mem_gb=16, covers=["reached"], replay=replay, what="multi", mi=m,
-                               sym="transfer symbolic over all 18 values; primaries index %d, matrix index %d (quick: a seeded third of the primaries x {standard, derived, Reserved, seeded} matrices; thorough: all 13 x 14)" % (cp, m)))
+                               sym="transfer symbolic over all 18 values; primaries index %d, matrix index %d (quick: 3 of the 13 primaries x {standard, derived, Reserved} matrices; thorough: all 13 x 14)" % (cp, m)))
         txt += BODY.replace("@P@", str(cp)).replace("@P2@", str(cp2)).replace("@MULTI@", multi)
         for (fam, what, obl, covers) in fams:
             if fam == "k_c14_gamma_linear_both_bad" and cp in sup:
                 continue   # vacuous: primaries supported
-            if fam.startswith("k_c14_yuv_rgb_ignores_tc_cp") and not thorough and cp not in (1, 9):
+            if fam.startswith("k_c14_yuv_rgb_ignores_tc_cp") and not thorough and cp != 9:
                 continue
+            if fam == "k_c14_yuv_rgb" and not thorough and cp not in (0, 1, 3, 9, 10, cps[(seed + 5) % len(cps)], cps[(seed + 8) % len(cps)]):
+                continue     # quick: Reserved0, BT.709, Reserved, BT.2020, ST 428 and two seeded primaries; thorough: all 13
             cv = covers
             if cv is None:
                 cv = ["succeeds", "fails"] if cp in sup else ["fails"]
